@@ -173,7 +173,7 @@ class TLCResult:
 
 def _java(xmx, serial=False):
     gc = ["-XX:+UseSerialGC", "-XX:CICompilerCount=2"] if serial else ["-XX:+UseParallelGC"]
-    return ["java"] + gc + ["-Xmx" + xmx, "-cp", TLC_JAR]
+    return ["java"] + gc + ["-Xss256m", "-Xmx" + xmx, "-cp", TLC_JAR]
 
 
 def run_tlc(spec_dir, module, cfg, workers=NCPU, env=None, timeout=1500, xmx="8g", extra=(), stdout_path=None,
